@@ -196,6 +196,10 @@ def gen_file(rng):
         nrows, ncols = size(rng), size(rng)
         ks = rng.randint(math.ceil(-324000 / dlat), math.floor(324000 / dlat) - (nrows - 1))
         ke = rng.randint(math.ceil(-648000 / dlon), math.floor(648000 / dlon) - (ncols - 1))
+        if rng.random() < 0.12:
+            ks = rng.choice([0, -(nrows - 1)])        # a limit exactly on the equator: an extent of 0.000"
+        if rng.random() < 0.12:
+            ke = rng.choice([0, -(ncols - 1)])        # ... or exactly on the Greenwich meridian
         s, e = dlat * ks, dlon * ke
         if (s * 1000).denominator == 1 and (e * 1000).denominator == 1:
             break
@@ -408,9 +412,11 @@ def check_file(p, rng, tr, path, fi, hdr, subs, offs, flen):
             else:
                 lo = v
         for method in ('bilinear', 'bicubic'):
+            if rng.random() < 0.3:
+                method = ''.join(list(method))     # the same text in a string built at run time (a configuration value, .lower() of user input)
             check_query(p, tr, G, subs, offs, flen, desc, la, lo, method, cls, side)
         # 2-D transformation, both directions
-        check_2d(p, G, subs, desc, la, lo, rng.choice(['bilinear', 'bicubic']))
+        check_2d(p, G, subs, desc, la, lo, ''.join(list(rng.choice(['bilinear', 'bicubic']))))
 
 
 def check_2d(p, G, subs, desc, la, lo, method):
